@@ -36,28 +36,59 @@ Fact get_eos_head_as_modelled : F.get_eos_head =
   "if input.is_empty() { return Ok(0); } let s: String = input.chars().take(self.limit).collect(); let input_exceeds_limit = s.len() < input.len(); lazy_static!{..}".
 Proof. vm_compute. reflexivity. Qed.
 
-Fact get_eos_loop_and_tail_as_modelled : F.get_eos_loop_and_tail =
-  "for mat in SENTENCE_BREAKER.find_iter(&s) { let mut eos = mat?.end(); if parenthesis_level(&s[..eos])? > 0 { continue; } if eos < s.len() { eos += prohibited_bos(&s[eos..])?; } if ITEMIZE_HEADER.is_match(&s)? { continue; } if eos < s.len() && is_continuous_phrase(&s, eos)? { continue; } if let Some(ck) = checker { if ck.has_non_break_word(input, eos) { continue; } } return Ok(eos as isize); } if input_exceeds_limit { lazy_static!{..} if let Some(mat) = SPACES.find(&s)? { return Ok(-(mat.end() as isize)); } } Ok(-(s.len() as isize))".
+(* the candidate loop of get_eos as its ordered steps (each recognised in its equivalent spellings: comparison from either
+   side, if-let / map_or for the optional checker; an extra, missing or reordered step is an extraction failure), and the
+   provisional negative answers: what Model.Sentence.accept / get_eos implement *)
+Fact get_eos_steps_as_modelled : F.get_eos_steps =
+  [ "veto: parenthesis_level(&s[..eos])? > 0 => continue";
+    "extend: eos < s.len() => eos += prohibited_bos(&s[eos..])?";
+    "veto: ITEMIZE_HEADER.is_match(&s)? => continue";
+    "veto: eos < s.len() && is_continuous_phrase(&s, eos)? => continue";
+    "veto: checker present and has_non_break_word(input, eos) => continue";
+    "accept: return Ok(eos as isize)";
+    "no candidate accepted: input_exceeds_limit and SPACES.find(&s)? = Some(m) => Ok(-(m.end())); otherwise Ok(-(s.len()))" ].
 Proof. vm_compute. reflexivity. Qed.
 
-Fact has_non_break_word_body_as_modelled : F.has_non_break_word_body =
-  "let eos_byte = self.bos + length; let input_bytes = input.as_bytes(); const LOOKUP_BYTE_LENGTH: usize = 10 * 3; let lookup_start = std::cmp::max(LOOKUP_BYTE_LENGTH, eos_byte) - LOOKUP_BYTE_LENGTH; for i in lookup_start..eos_byte { for entry in self.lexicon.lookup(input_bytes, i) { let end_byte = entry.end; match end_byte.cmp(&eos_byte) { Ordering::Greater => return true, Ordering::Equal => { if input[i..end_byte].chars().take(2).count() > 1 { return true; } } _ => {} } } } false".
+(* NonBreakChecker::has_non_break_word, feature by feature (recognised by gen/factmods/SentenceFacts.py in every
+   behaviour-equivalent spelling it lists: match on Ordering / plain comparisons from either side, local names free;
+   anything else is an extraction failure): what nb_scan / has_non_break_word of the model implement *)
+Fact nbw_candidate_as_modelled : F.nbw_candidate = "self.bos + length".
+Proof. vm_compute. reflexivity. Qed.
+Fact nbw_lookback_start_as_modelled : F.nbw_lookback_start = "candidate - LOOKUP_BYTE_LENGTH, saturating at 0".
+Proof. vm_compute. reflexivity. Qed.
+Fact nbw_offsets_as_modelled : F.nbw_offsets = "every byte offset from the look-back start to the candidate (exclusive), ascending".
+Proof. vm_compute. reflexivity. Qed.
+Fact nbw_entries_as_modelled : F.nbw_entries = "every entry of self.lexicon.lookup(input bytes, offset), in order".
+Proof. vm_compute. reflexivity. Qed.
+Fact nbw_veto_crossing_as_modelled : F.nbw_veto_crossing = "entry.end > candidate => true".
+Proof. vm_compute. reflexivity. Qed.
+Fact nbw_veto_ending_as_modelled : F.nbw_veto_ending = "entry.end == candidate && input[offset..entry.end] has more than 1 character => true".
+Proof. vm_compute. reflexivity. Qed.
+Fact nbw_default_as_modelled : F.nbw_default = "false".
 Proof. vm_compute. reflexivity. Qed.
 
 Fact parenthesis_level_body_as_modelled : F.parenthesis_level_body =
   "lazy_static!{..} let mut level = 0; for caps in PARENTHESIS.captures_iter(s) { if let Some(_) = caps?.get(1) { level += 1; } else if level > 0 { level -= 1; } } Ok(level)".
 Proof. vm_compute. reflexivity. Qed.
 
-Fact prohibited_bos_body_as_modelled : F.prohibited_bos_body =
-  "lazy_static!{..} if let Some(mat) = PROHIBITED_BOS.find(s)? { Ok(mat.end()) } else { Ok(0) }".
+(* prohibited_bos: the model's prohibited_bos = end of the anchored match, 0 without one *)
+Fact prohibited_bos_result_as_modelled : F.prohibited_bos_result = "end of the match of PROHIBITED_BOS.find(s)?, 0 without a match".
 Proof. vm_compute. reflexivity. Qed.
 
 Fact continuous_phrase_body_as_modelled : F.continuous_phrase_body =
   "lazy_static! { static ref QUOTE_MARKER: Regex = Regex::new(&format!(""(！|？|\\!|\\?|[{}])(と|っ|です)"", CLOSE_PARENTHESIS)).unwrap(); static ref EOS_ITEMIZE_HEADER: Regex = Regex::new(&format!(""([{}])([{}])\\z"", ALPHABET_OR_NUMBER, DOT)).unwrap(); } let last_char_len = s[..eos].chars().last().unwrap().to_string().len(); if let Some(mat) = QUOTE_MARKER.find(&s[(eos - last_char_len)..])? { if mat.start() == 0 { return Ok(true); } } let c = s[eos..].chars().nth(0).unwrap(); Ok((c == 'と' || c == 'や' || c == 'の') && EOS_ITEMIZE_HEADER.is_match(&s[..eos])?)".
 Proof. vm_compute. reflexivity. Qed.
 
-Fact iter_next_body_as_modelled : F.iter_next_body =
-  "if self.position == self.data.len() { return None; } let slice = &self.data[self.position..]; let rv = self.splitter.get_eos(slice, self.checker).unwrap(); let end = if rv < 0 { self.data.len() } else { self.position + rv as usize }; let range = self.position..end; let real_slice = &self.data[range.clone()]; self.position = end; Some((range, real_slice))".
+(* SentenceIter::next, feature by feature: what Model.Sentence.iter implements *)
+Fact iter_done_when_as_modelled : F.iter_done_when = "position == data.len() => None".
+Proof. vm_compute. reflexivity. Qed.
+Fact iter_detector_call_as_modelled : F.iter_detector_call = "rv = splitter.get_eos(&data[position..], checker).unwrap()".
+Proof. vm_compute. reflexivity. Qed.
+Fact iter_negative_as_modelled : F.iter_negative = "rv < 0 => end = data.len()".
+Proof. vm_compute. reflexivity. Qed.
+Fact iter_nonnegative_as_modelled : F.iter_nonnegative = "otherwise end = position + rv as usize".
+Proof. vm_compute. reflexivity. Qed.
+Fact iter_yield_as_modelled : F.iter_yield = "Some((position..end, &data[position..end])); position = end".
 Proof. vm_compute. reflexivity. Qed.
 
 Fact cli_splitter_ctors_as_modelled : F.cli_splitter_ctors =
